@@ -105,7 +105,8 @@ class NestedParent(WrappingQuery):
         if p is qcore.NullQuery or q is qcore.NullQuery:
             return qcore.NullQuery
 
-        return self.__class__(p, q)
+        return self.__class__(p, q, per_parent_limit=self.per_parent_limit,
+                              score_fn=self.score_fn)
 
     def requires(self):
         return self.child.requires()
